@@ -75,16 +75,26 @@ def combPassF (f : FModule) (a : Array Int) : Mods :=
   f.comb.foldl (fun m g =>
     execFs (envA a) g.stmts (execFs (envA a) (resetStmts f.sigs (sortByName f.sigs g.targets)) m)) []
 
+/-- One comb evaluation + commit. -/
+def iterF (f : FModule) (a : Array Int) : Array Int := commitF a (combPassF f a)
+
 /-- Execute comb / commit until nothing changes (`fuel` bounds the iteration: combinational loops). -/
 def settleF (f : FModule) : Nat → Array Int → Array Int
   | 0, a => a
-  | fuel + 1, a =>
-    let a' := commitF a (combPassF f a)
-    if a' == a then a else settleF f fuel a'
+  | fuel + 1, a => if iterF f a == a then a else settleF f fuel (iterF f a)
 
-/-- Rising edge of the listed clock signals: execute their `sync` statements on the settled state, commit. -/
+def insertDom (d : SyncDom) : List SyncDom → List SyncDom
+  | [] => [d]
+  | e :: es => if d.name < e.name then d :: e :: es else e :: insertDom d es
+
+def sortDoms : List SyncDom → List SyncDom
+  | [] => []
+  | d :: ds => insertDom d (sortDoms ds)
+
+/-- Rising edge of the listed clock signals: execute their `sync` statements on the settled state, commit.
+    (`Simulator.run` walks a Python `set` of rising domains; we take the order of the printed text.) -/
 def syncPassF (f : FModule) (a : Array Int) (clks : List Nat) : Mods :=
-  f.sync.foldl (fun m d => if clks.contains d.clk then execFs (envA a) d.stmts m else m) []
+  (sortDoms f.sync).foldl (fun m d => if clks.contains d.clk then execFs (envA a) d.stmts m else m) []
 
 def initF (f : FModule) : Array Int := f.sigs.map (·.reset)
 
@@ -103,11 +113,12 @@ def combPassV (items : List VItem) (a : Array Int) : Pending :=
     | .comb body => execVs (envA a) body p
     | .sync _ _ => p) []
 
+def iterV (sigs : Array SigDecl) (items : List VItem) (a : Array Int) : Array Int :=
+  commitV sigs a (combPassV items a)
+
 def settleV (sigs : Array SigDecl) (items : List VItem) : Nat → Array Int → Array Int
   | 0, a => a
-  | fuel + 1, a =>
-    let a' := commitV sigs a (combPassV items a)
-    if a' == a then a else settleV sigs items fuel a'
+  | fuel + 1, a => if iterV sigs items a == a then a else settleV sigs items fuel (iterV sigs items a)
 
 def syncPassV (items : List VItem) (a : Array Int) (clks : List Nat) : Pending :=
   items.foldl (fun p it =>
@@ -134,14 +145,6 @@ def printCombGroup (sigs : Array SigDecl) (g : CombGroup) : VItem :=
   match useWire g.stmts with
   | some (l, r) => .assign (printE l).1 (printE r).1
   | none => .comb (VStmts.append (printSs (resetStmts sigs (sortByName sigs g.targets))) (printStmts g.stmts))
-
-def insertDom (d : SyncDom) : List SyncDom → List SyncDom
-  | [] => [d]
-  | e :: es => if d.name < e.name then d :: e :: es else e :: insertDom d es
-
-def sortDoms : List SyncDom → List SyncDom
-  | [] => []
-  | d :: ds => insertDom d (sortDoms ds)
 
 /-- Body of the generated module: comb groups in `group_by_targets` order, then the clock domains sorted by name. -/
 def printModule (f : FModule) : List VItem :=
